@@ -37,6 +37,8 @@ type Scenario struct {
 	// StaleCanaryService pre-creates "<svc>-canary" selecting some long-gone revision (a leftover of an earlier,
 	// interrupted rollout): legal input the controllers must re-point before routing to it.
 	StaleCanaryService bool
+	// Recreate: the user's Deployment uses strategy Recreate
+	Recreate bool
 	// Deviation alphabet (user actions) enabled in this scenario.
 	Actions []string
 	NS      string
@@ -127,6 +129,9 @@ func (sc *Scenario) Build(w *World) error {
 				Strategy: apps.DeploymentStrategy{Type: apps.RollingUpdateDeploymentStrategyType,
 					RollingUpdate: &apps.RollingUpdateDeployment{MaxSurge: parseIS("25%"), MaxUnavailable: parseIS("25%")}},
 			},
+		}
+		if sc.Recreate {
+			d.Spec.Strategy = apps.DeploymentStrategy{Type: apps.RecreateDeploymentStrategyType}
 		}
 		if err := w.Raw.Create(ctx, d); err != nil {
 			return err
